@@ -49,8 +49,8 @@ func goTypeName(t reflect.Type) string {
 }
 
 func rootElemIsInterface(t reflect.Type) bool {
-	for t.Kind() == reflect.Slice || t.Kind() == reflect.Array || t.Kind() == reflect.Ptr {
-		t = t.Elem()
+	for hops := 0; hops < 64 && (t.Kind() == reflect.Slice || t.Kind() == reflect.Array || t.Kind() == reflect.Ptr); hops++ {
+		t = t.Elem() // a list type may contain itself (type Nest []Nest)
 	}
 	return t.Kind() == reflect.Interface
 }
